@@ -445,7 +445,8 @@ def ge_case(draw):
     nmodes = k if which == "GraphEmbed" else 2 * k
     n = nmodes + draw(st.integers(0, 1))
     modes = list(draw(st.permutations(list(range(n))))[:nmodes])
-    return {"which": which, "kind": kind, "A": spec.enc_matrix(A), "n": n, "modes": modes, "mean_photon": draw(gen.fl(0.05, 1.0))}
+    return {"which": which, "kind": kind, "A": spec.enc_matrix(A), "n": n, "modes": modes, "mean_photon": draw(gen.fl(0.05, 1.0)),
+            "make_traceless": which == "GraphEmbed" and kind not in ("identity", "scaled_identity") and draw(st.integers(0, 2)) == 0}
 
 
 def _takagi_near_degenerate(A, which, mp):
@@ -497,12 +498,21 @@ def check_ge(ctx, case):
     else:
         full = A
         arg, kw = A, {}
+    mt = bool(case.get("make_traceless"))
+    if mt:
+        # documented: the embedded matrix is A - tr(A)/k * 1, rescaled to the requested mean photon number
+        labels.append("make_traceless")
+        full = A - np.trace(A) / k * np.eye(k)
+        kw = {"make_traceless": True}
+        if float(np.max(np.abs(full))) < 1e-6:
+            ctx.note(case, False, labels + ["traceless_part_vanishes"])
+            return None
     prog = sf.Program(n)
     try:
         with prog.context as q:
             regs = tuple(q[m] for m in modes)
             if which == "GraphEmbed":
-                ops.GraphEmbed(arg, mean_photon_per_mode=mp) | regs
+                ops.GraphEmbed(arg, mean_photon_per_mode=mp, **kw) | regs
             else:
                 ops.BipartiteGraphEmbed(arg, mean_photon_per_mode=mp, **kw) | regs
         comp = prog.compile(compiler="gaussian")
@@ -524,7 +534,7 @@ def check_ge(ctx, case):
     bad_prop = abs(c.imag) > 1e-7 or c.real <= 0 or float(np.max(np.abs(Am - c * ref_mat))) > 1e-7
     bad_n = abs(nbar - nm * mp) > 1e-6 * (1 + nm * mp)
     if bad_prop or bad_n:
-        if _takagi_near_degenerate(A, which, mp):
+        if _takagi_near_degenerate(full if mt else A, which, mp):
             return ctx.fail("takagi.near_degenerate_cluster_split_by_rounding", "graph embedding of a matrix with nearly (not exactly) equal singular values: takagi returns a non-unitary W")
         is_identity = np.allclose(arg, np.eye(len(arg)), atol=1e-13)
         if is_identity and len(specs) == 0:
